@@ -52,6 +52,20 @@ pub fn pick_flavor(rng: &mut Rng) -> Flavor {
     }
 }
 
+/// flavour for single-client (lock-step) families: also the single-task executor
+pub fn pick_flavor_l(rng: &mut Rng) -> Flavor {
+    match std::env::var("DST_FLAVOR").ok().as_deref() {
+        Some("sync") => Flavor::Sync,
+        Some("async") => Flavor::Async,
+        Some("local") => Flavor::AsyncLocal,
+        _ => match rng.below(20) {
+            0..=7 => Flavor::Sync,
+            8..=14 => Flavor::Async,
+            _ => Flavor::AsyncLocal,
+        },
+    }
+}
+
 pub fn roomy_cfg(rng: &mut Rng, flavor: Flavor) -> Cfg {
     Cfg {
         flavor,
@@ -108,7 +122,7 @@ pub fn gen_ttl_family(prop: &str, seed: u64, faulty: bool) -> Plan {
 /// `conditional`: add insert_if_present operations and (often) a vetoing UpdateValidator (C09).
 pub fn gen_ttl_family_c(prop: &str, seed: u64, faulty: bool, conditional: bool) -> Plan {
     let mut rng = Rng::new(seed ^ 0x77_11);
-    let flavor = pick_flavor(&mut rng);
+    let flavor = pick_flavor_l(&mut rng);
     let mut cfg = roomy_cfg(&mut rng, flavor);
     if conditional && rng.chance(6, 10) {
         cfg.validator = Validator::Mod { m: rng.range(2, 3), r: rng.below(2) };
@@ -631,7 +645,7 @@ pub fn gen_c18_typed(seed: u64) -> Plan {
 /// C18(a): lock-step script over keys forced to share index hashes.
 pub fn gen_c18_lockstep(seed: u64) -> Plan {
     let mut rng = Rng::new(seed ^ 0xc18);
-    let flavor = pick_flavor(&mut rng);
+    let flavor = pick_flavor_l(&mut rng);
     let mut cfg = roomy_cfg(&mut rng, flavor);
     let faulty = rng.chance(1, 4);
     let sim = sim_plan(&mut rng, faulty);
